@@ -9,7 +9,7 @@ Definition errored (errs : list (path * eaction * err)) (p : path) : Prop := exi
 Lemma step_f_errs_mono flt junk c now s t p : errored (snd (fst s)) p -> errored (snd (fst (step_f flt junk c now s t))) p.
 Proof.
   destruct s as [[m errs] evs]. cbn [fst snd]. intros (a & x & Hin). unfold step_f.
-  destruct (match t_src t with Some _ => if c_dry_run c then None else flt (t_path t) | None => None end); [exists a, x; right; exact Hin|].
+  destruct (if c_dry_run c then None else flt (t_path t)); [exists a, x; right; exact Hin|].
   destruct (exec_task c now m t); cbn [fst snd]; exists a, x; [exact Hin | right; exact Hin].
 Qed.
 
@@ -25,7 +25,7 @@ Lemma step_f_src flt junk c now m errs evs t e : c_dry_run c = false -> t_src t 
             | inr x => (m, (t_path t, t_action t, x) :: errs, evs)
             end
   end.
-Proof. intros Hd Hs. unfold step_f. rewrite Hs, Hd. reflexivity. Qed.
+Proof. intros Hd Hs. unfold step_f. rewrite Hd. reflexivity. Qed.
 
 (* ---------- the source tasks ---------- *)
 Lemma src_phase flt junk c ds now dst : c_dry_run c = false ->
@@ -114,16 +114,24 @@ Proof.
   intros (Hnd & Hne & Hfile & Hclosed). induction dels as [|t dels IH]; intros s Hall s' e He Hpost; [exact Hpost|].
   subst s'. cbn [fold_left]. apply IH; [intros t' Ht'; apply Hall; right; exact Ht' | exact He|].
   destruct (Hall t (or_introl eq_refl)) as (Ha & Hs & Hp0 & Hnin).
-  destruct s as [[m errs] evs]. cbn [fst] in *. unfold step_f. rewrite Hs.
-  destruct (exec_task c now m t) as [m1|x] eqn:Et; cbn [fst]; [|exact Hpost].
-  destruct Hpost as (x & Hx & Hg). exists x. split; [|exact Hg]. rewrite <- Hx.
-  apply (exec_task_frame c now m t m1); [unfold task_ok; rewrite Hs; exact Ha | exact Et|].
-  unfold task_touches. rewrite Ha. intro Hpre. apply pprefix_spec in Hpre. destruct Hpre as (r & Er).
-  destruct r as [|r0 r].
-  - rewrite app_nil_r in Er. apply Hnin. rewrite <- Er. unfold paths_of. apply in_map. exact He.
-  - destruct (Hclosed e (t_path t) He) as (d & Hd & Hdp & _).
-    + split; [exact Hp0|]. exists (r0 :: r). split; [discriminate | exact Er].
-    + apply Hnin. rewrite <- Hdp. unfold paths_of. apply in_map. exact Hd.
+  destruct s as [[m errs] evs]. cbn [fst] in *. unfold step_f.
+  (* no selected entry sits at or below the path of a deletion task *)
+  assert (Hnot : pprefix (t_path t) (se_path e) = true -> False).
+  { intro Hpre. apply pprefix_spec in Hpre. destruct Hpre as (r & Er).
+    destruct r as [|r0 r].
+    - rewrite app_nil_r in Er. apply Hnin. rewrite <- Er. unfold paths_of. apply in_map. exact He.
+    - destruct (Hclosed e (t_path t) He) as (d & Hd & Hdp & _).
+      + split; [exact Hp0|]. exists (r0 :: r). split; [discriminate | exact Er].
+      + apply Hnin. rewrite <- Hdp. unfold paths_of. apply in_map. exact Hd. }
+  destruct (if c_dry_run c then None else flt (t_path t)) as [xf|].
+  - (* the deletion fails: the entry stays, part of what is below it may be gone -- none of it is a selected entry *)
+    cbn [fst]. destruct Hpost as (x & Hx & Hg). exists x. split; [|exact Hg].
+    unfold fault_effect. rewrite Hs. destruct (strict_prefix (t_path t) (se_path e)) eqn:Esp; [|exact Hx].
+    exfalso. apply Hnot. unfold strict_prefix in Esp. apply andb_true_iff in Esp. exact (proj1 Esp).
+  - destruct (exec_task c now m t) as [m1|x] eqn:Et; cbn [fst]; [|exact Hpost].
+    destruct Hpost as (x & Hx & Hg). exists x. split; [|exact Hg]. rewrite <- Hx.
+    apply (exec_task_frame c now m t m1); [unfold task_ok; rewrite Hs; exact Ha | exact Et|].
+    unfold task_touches. rewrite Ha. exact Hnot.
 Qed.
 
 (* ---------- containment: whatever fails, every entry without an error of its own ends up as C01 requires ---------- *)
@@ -164,10 +172,51 @@ Lemma exec_all_as_fold junk c now : forall ts m errs evs,
   exec_all c now m ts errs evs = finish (fold_left (step_f (fun _ => None) junk c now) ts (m, errs, evs)).
 Proof.
   induction ts as [|t ts IH]; intros m errs evs; [reflexivity|]. cbn [exec_all fold_left]. unfold step_f at 2.
-  assert (E : match t_src t with Some _ => if c_dry_run c then None else @None err | None => None end = None) by (destruct (t_src t), (c_dry_run c); reflexivity).
+  assert (E : (if c_dry_run c then None else @None err) = None) by (destruct (c_dry_run c); reflexivity).
   rewrite E. destruct (exec_task c now m t); apply IH.
 Qed.
 
 Theorem run_f_no_faults junk refuse ds c now U keep src dst :
   run_f (fun _ => None) junk refuse ds c now U keep src dst = run refuse ds c now U keep src dst.
 Proof. unfold run_f, run, exec_all_f. cbv zeta. destruct (_ && _); [reflexivity|]. symmetry. apply exec_all_as_fold. Qed.
+
+(* ---------- visibility: a fault that hits a task of the run is in the error list, hence in the exit status ---------- *)
+Lemma fold_records_fault flt junk c now : c_dry_run c = false -> forall ts s t x,
+  In t ts -> flt (t_path t) = Some x -> errored (snd (fst (fold_left (step_f flt junk c now) ts s))) (t_path t).
+Proof.
+  intro Hdry. induction ts as [|t0 ts IH]; intros s t x Hin Hf; [destruct Hin|].
+  cbn [fold_left]. destruct Hin as [->|Hin].
+  - apply fold_errs_mono. destruct s as [[m errs] evs]. unfold step_f. rewrite Hdry, Hf. cbn [fst snd].
+    exists (t_action t), x. left. reflexivity.
+  - apply (IH _ t x Hin Hf).
+Qed.
+
+Theorem run_f_fault_visible flt junk refuse ds c now U keep src dst p x :
+  c_dry_run c = false ->
+  let r := run_f flt junk refuse ds c now U keep src dst in
+  r_refused r = false ->
+  flt p = Some x ->
+  (In p (map se_path src) \/ (c_delete c = true /\ In p (map t_path (plan_deletions (keep ++ src) (filter (fun q => match dst q with Some _ => true | None => false end) U))))) ->
+  (exists a y, In (p, a, y) (r_errors r)) /\ exit_status c r = 1%Z.
+Proof.
+  intros Hdry r Hnr Hf Hin. subst r. unfold run_f in *. cbv zeta in *.
+  destruct (c_delete c && negb (c_force_delete c) && _ && _) eqn:Eb; [cbn in Hnr; discriminate|].
+  set (ts := map (plan_entry c ds dst) src ++ (if c_delete c then _ else [])).
+  assert (Ht : exists t, In t ts /\ t_path t = p).
+  { destruct Hin as [Hs | [Hd Hdl]].
+    - apply in_map_iff in Hs. destruct Hs as (e & Ep & He). exists (plan_entry c ds dst e). split.
+      + unfold ts. apply in_or_app. left. apply in_map. exact He.
+      + destruct (plan_entry_ok c ds dst e) as (_ & _ & Hp). rewrite Hp. exact Ep.
+    - apply in_map_iff in Hdl. destruct Hdl as (t & Ep & Ht). exists t. split; [|exact Ep].
+      unfold ts. apply in_or_app. right. rewrite Hd. exact Ht. }
+  destruct Ht as (t & Ht & Ep). subst p.
+  unfold exec_all_f.
+  pose proof (fold_records_fault flt junk c now Hdry ts (dst, [], []) t x Ht Hf) as Herr.
+  destruct (fold_left (step_f flt junk c now) ts (dst, [], [])) as [[m2 errs2] evs2]. cbn [fst snd] in Herr.
+  destruct Herr as (a & y & Hy). cbn [finish r_errors].
+  assert (Hin' : In (t_path t, a, y) (rev errs2)) by (apply -> in_rev; exact Hy).
+  split; [exists a, y; exact Hin'|].
+  unfold exit_status. cbn [r_refused r_errors].
+  destruct (negb (N.eqb (c_max_errors c) 0) && N.leb (c_max_errors c) (N.of_nat (length (rev errs2)))); [reflexivity|].
+  destruct (rev errs2); [destruct Hin' | reflexivity].
+Qed.
